@@ -18,5 +18,11 @@ theorem order_standardRenderer_start : Tea.Gen.fact_order_standardRenderer_start
 theorem body_Program_readLoop : Tea.Gen.fact_body_Program_readLoop = Tea.Doc.fact_body_Program_readLoop := rfl
 theorem body_Program_waitForReadLoop : Tea.Gen.fact_body_Program_waitForReadLoop = Tea.Doc.fact_body_Program_waitForReadLoop := rfl
 theorem body_standardRenderer_halt : Tea.Gen.fact_body_standardRenderer_halt = Tea.Doc.fact_body_standardRenderer_halt := rfl
+theorem body_Exec : Tea.Gen.fact_body_Exec = Tea.Doc.fact_body_Exec := rfl
+theorem body_ExecProcess : Tea.Gen.fact_body_ExecProcess = Tea.Doc.fact_body_ExecProcess := rfl
+theorem body_wrapExecCommand : Tea.Gen.fact_body_wrapExecCommand = Tea.Doc.fact_body_wrapExecCommand := rfl
+theorem body_osExecCommand_SetStdin : Tea.Gen.fact_body_osExecCommand_SetStdin = Tea.Doc.fact_body_osExecCommand_SetStdin := rfl
+theorem body_osExecCommand_SetStdout : Tea.Gen.fact_body_osExecCommand_SetStdout = Tea.Doc.fact_body_osExecCommand_SetStdout := rfl
+theorem body_osExecCommand_SetStderr : Tea.Gen.fact_body_osExecCommand_SetStderr = Tea.Doc.fact_body_osExecCommand_SetStderr := rfl
 
 end Tea.Props.Bridge.C17
